@@ -261,3 +261,16 @@ def compare_parts(node: ast.AST) -> tuple[ast.AST, type, ast.AST] | None:
 
 def any_match(items: Iterable, pred) -> bool:
     return any(pred(i) for i in items)
+
+
+def as_update(stmt: ast.AST) -> tuple[ast.AST, ast.operator, ast.AST] | None:
+    """(target, op, operand) of ``T op= e`` and of its spelled-out form ``T = T op e`` (also ``T = e + T`` for + and *)."""
+    if isinstance(stmt, ast.AugAssign):
+        return stmt.target, stmt.op, stmt.value
+    if isinstance(stmt, ast.Assign) and len(stmt.targets) == 1 and isinstance(stmt.value, ast.BinOp):
+        t = ast.unparse(stmt.targets[0])
+        if ast.unparse(stmt.value.left) == t:
+            return stmt.targets[0], stmt.value.op, stmt.value.right
+        if isinstance(stmt.value.op, (ast.Add, ast.Mult)) and ast.unparse(stmt.value.right) == t:
+            return stmt.targets[0], stmt.value.op, stmt.value.left
+    return None
